@@ -91,7 +91,7 @@ func checkCompareValueSlices(c *core.Ctx) {
 				return 0, true
 			}
 			return 0, false
-		}, map[string]int64{"endA": 1, "endB": 0, "lt": 1, "gt": 0}, 0)
+		}, map[string]int64{"endA": 1, "endB": 0, "lt": 1, "gt": 0}, 0, lenRel)
 		c.Decide(ok, "ABS1L", key, fn.Decl.Pos(), len(outs), "strict lexicographic less-than", why)
 	}
 }
